@@ -163,7 +163,9 @@ def rule_G3(ctx, F):
     ctx.ob(ok, "input-halves-of-one-split_at", csw.loc, "left/right = input.split_at(left_subtree_len(input.len())): %s" % ok)
     rc = local_named("right_chunk_counter")
     erc = val(csw.expr_local(rc)) if rc is not None else None
-    want = P.bin("Add", P.arg("chunk_counter"), P.cast(P.bin("Div", ("call", name_ends("::len"), (el,)), P.named("CHUNK_LEN")), "u64"))
+    # left.len() is canonicalised by val() to the split point itself (left = input.split_at(n).0)
+    split_pt = m1["isplit"][2][1] if ok else W()
+    want = P.bin("Add", P.arg("chunk_counter"), P.cast(P.bin("Div", split_pt, P.named("CHUNK_LEN")), "u64"))
     ctx.ob(erc is not None and unify(want, erc) is not None, "right-counter", csw.loc, "right_chunk_counter = %s ; required chunk_counter + left.len()/CHUNK_LEN" % (show(erc)[:120] if erc else "?"))
     # each closure recurses with its own side only
     want_args = [["left", "key", "chunk_counter", "flags", "platform", "left_out"], ["right", "key", "right_chunk_counter", "flags", "platform", "right_out"]]
